@@ -2,7 +2,7 @@
     Jacobian un-flattening, named noise assembly) with rendering B of the regenerated EKF formulas,
     over exact rationals, and compares with what the implementation returned. *)
 From Coq Require Import String List Bool Arith ZArith QArith Qabs.
-From FV Require Import Base.Names Base.Expr Base.ListMat Model.BasicBlock Model.Layout Model.Jacobian
+From FV Require Import Base.Names Base.Expr Base.ListMat Base.Store Base.ListMatFacts Model.BasicBlock Model.Layout Model.Jacobian
   Model.Named Model.GlueExec gen.LayoutParams gen.EkfB.
 Import ListNotations.
 
@@ -58,7 +58,11 @@ Definition run_predict (F : filt) (dtv : Q) (st ctl cal : list (name * Q)) (P : 
                 | _ => option_map (fun V => (V, py_noise_matrix (d_U d) (f_noise F))) (jac 1 F [] (f_vjac F) i)
                 end in
       match VM with
-      | Some (V, M) => Some (fx, py_process_model_cov_l G V P M)
+      | Some (V, M) =>
+          (* premises of Proofs/Refine.refine_py_predict, checked by computation on this case *)
+          let n := length P in let c := length M in
+          if (1 <=? n)%nat && (1 <=? c)%nat && shaped2b n n G && shaped2b n c V && shaped2b n n P && shaped2b c c M
+          then Some (fx, py_process_model_cov_l G V P M) else Some (fx, [])
       | None => None
       end
   | _, _ => None
@@ -85,27 +89,36 @@ Definition run_update (F : filt) (S : sens) (k : option Q) (st cal : list (name 
   | Some hx, Some H, Ok Qm, Ok z =>
       let x := colv (i_S Q i) in
       let '((x', P'), (inn, St)) := py_sensor_model_l (rm_exact k) x P (colv z) (colv hx) H Qm in
-      Some ((uncol x', P'), (uncol inn, St), rm_exact k (lsub (colv z) (colv hx)) (linv St))
+      (* premises of Proofs/Refine.refine_py_update (shapes, inverse certificate S * linv S = I), checked by
+         computation on this case; an empty covariance marks a failed premise *)
+      let n := length P in let m := length Qm in
+      let Sinv := linv St in
+      let okp := (1 <=? n)%nat && (1 <=? m)%nat && shaped2b n 1 x && shaped2b n n P && shaped2b m 1 (colv z) && shaped2b m 1 (colv hx)
+                 && shaped2b m n H && shaped2b m m Qm && cert_inv m St Sinv in
+      Some ((uncol x', if okp then P' else []), (uncol inn, St), rm_exact k (lsub (colv z) (colv hx)) Sinv)
   | _, _, _, _ => None
   end.
 
 Definition vclose (a b : list Q) : bool := lclose_norm tol (colv a) (colv b).
 
-(** codes: 2 model undefined, 3 state differs, 4 covariance differs, 0 ok *)
+(** codes: 2 model undefined, 3 state differs, 4 covariance differs, 9 a shape premise of the refinement theorem fails, 0 ok *)
 Definition check_predict (F : filt) (dtv : Q) (st ctl cal : list (name * Q)) (P : lmat)
     (impl_state : list Q) (impl_cov : lmat) : nat :=
   match run_predict F dtv st ctl cal P with
   | None => 2%nat
-  | Some (fx, P') => if negb (vclose fx impl_state) then 3%nat else if negb (lclose_norm tol P' impl_cov) then 4%nat else 0%nat
+  | Some (fx, P') => if Nat.eqb (length P') 0 then 9%nat else
+                     if negb (vclose fx impl_state) then 3%nat else if negb (lclose_norm tol P' impl_cov) then 4%nat else 0%nat
   end.
 
-(** codes: 2 undefined, 3 state, 4 covariance, 5 recorded innovation, 6 recorded S, 7 decision, 0 ok *)
+(** codes: 2 undefined, 3 state, 4 covariance, 5 recorded innovation, 6 recorded S, 7 decision,
+    8 a premise of the refinement theorem (shapes, inverse certificate) fails on this case, 0 ok *)
 Definition check_update (F : filt) (S : sens) (k : option Q) (st cal : list (name * Q)) (P : lmat)
     (reading : list (name * Q)) (impl_state : list Q) (impl_cov : lmat) (impl_innov : list Q) (impl_S : lmat)
     (impl_rejected : bool) : nat :=
   match run_update F S k st cal P reading with
   | None => 2%nat
   | Some ((x', P'), (inn, St), rej) =>
+      if Nat.eqb (length P') 0 then 8%nat else
       if negb (Bool.eqb rej impl_rejected) then 7%nat else
       if negb (vclose x' impl_state) then 3%nat else
       if negb (lclose_norm tol P' impl_cov) then 4%nat else
